@@ -34,6 +34,7 @@ var (
 	c04TmpV                  bool // name.tmp in the volatile directory view
 	c04TmpCache, c04TmpDisk  int
 	c04FinalV, c04FinalD     int // 0 none, 1 inode F (old content), 2 inode T
+	c04StaleTmp, c04Dirty    bool // a longer name.tmp left by an earlier crash; opened without truncation
 	c04TheFile               = &os.File{}
 	c04Err                   = errors.New("injected fault")
 )
@@ -47,11 +48,21 @@ func c04Step() bool {
 	return fail
 }
 
-func c04OpenFile(string, int, os.FileMode) (*os.File, error) {
+func c04OpenFile(_ string, flag int, _ os.FileMode) (*os.File, error) {
 	if c04Step() {
 		return nil, c04Err
 	}
+	if flag&os.O_CREATE == 0 && !c04StaleTmp {
+		return nil, c04Err // no such file
+	}
+	if flag&(os.O_WRONLY|os.O_RDWR) == 0 {
+		return nil, c04Err
+	}
+	c04Dirty = c04StaleTmp && flag&os.O_TRUNC == 0 // the stale, longer content stays behind what is written
 	c04TmpV, c04TmpCache, c04TmpDisk = true, c04Empty, c04Empty
+	if c04Dirty {
+		c04TmpCache, c04TmpDisk = c04Torn, c04Torn
+	}
 	return c04TheFile, nil
 }
 func c04Write(_ *os.File, b []byte) (int, error) {
@@ -60,6 +71,9 @@ func c04Write(_ *os.File, b []byte) (int, error) {
 		return 0, c04Err
 	}
 	c04TmpCache = c04New
+	if c04Dirty {
+		c04TmpCache = c04Torn // new bytes followed by the tail of the stale file
+	}
 	return len(b), nil
 }
 func c04Sync(*os.File) error {
@@ -101,9 +115,9 @@ func c04SyncDir(string) error {
 // name is either exactly the old content (or absent if it did not exist) or exactly the complete
 // new content - never empty, torn or missing - for every outcome of un-fsynced directory updates
 // and un-fsynced file data; and when WriteAtomic returns nil the new content is durable.
-// bound: one WriteAtomic call (open, write, fsync, close, rename, fsync-dir, plus cleanup removes); crash before any one call; at most one failing call; target existed before or not
+// bound: one WriteAtomic call (open, write, fsync, close, rename, fsync-dir, plus cleanup removes); crash before any one call; at most one failing call; target existed before or not; a stale, longer name.tmp left by an earlier crash present or not (the open flags decide whether its tail survives)
 // assume: rename is atomic; fsync(file)/fsync(dir) make content/directory durable; data and directory updates not fsynced may or may not survive, independently
-// outside: behaviour of a real kernel/file system beyond this model; leftover .tmp files (cleaned by CleanupLeftoverTmp)
+// outside: behaviour of a real kernel/file system beyond this model
 func VerifH_C04_WriteAtomicCrash() {
 	hadOld := zzverif.Bool("target existed")
 	c04Ops, c04CrashAt, c04FailAt = 0, zzverif.Choice("crash before call", 9), zzverif.Choice("failing call", 9)
@@ -114,6 +128,7 @@ func VerifH_C04_WriteAtomicCrash() {
 		c04FailAt = -1
 	}
 	c04TmpV, c04TmpCache, c04TmpDisk = false, c04Absent, c04Absent
+	c04StaleTmp, c04Dirty = zzverif.Bool("stale longer .tmp from an earlier crash"), false
 	c04FinalV, c04FinalD = 0, 0
 	if hadOld {
 		c04FinalV, c04FinalD = 1, 1
